@@ -1086,11 +1086,21 @@ def determinism_script(r, idx, fate_vec=None, variant=None):
         # legitimately does their work earlier than the first run did: equality of outputs is only
         # claimed for extra calls at instants where nothing else is due
         s["cfg"]["late_us"] = 0
+    silence = None
+    if r.random() < 0.25:
+        # connection IDs with a lifetime and a peer that falls silent for a while: the rotation timer
+        # keeps coming due although the retirements it waits for never arrive
+        s["cfg"]["cid_lifetime_ms"] = r.choice([150, 400, 2000])
+        silence = r.choice([0, 1])
     steps = []
     for st in s["steps"]:
         steps.append(st)
         if st["do"] in ("run", "run_until") and r.random() < 0.3:
             steps.append({"do": "spurious", "n": r.choice([0, 1]), "c": 0})
+        if silence is not None and st["do"] == "run_until" and st.get("what") == "connected":
+            steps += [{"do": "run", "us": r.choice([200000, 2500000])}, {"do": "blackhole", "n": silence, "on": True},
+                      {"do": "run", "us": r.choice([3000000, 7000000])}, {"do": "blackhole", "n": silence, "on": False}]
+            silence = None
     steps.append({"do": "spurious", "n": 0, "c": 0})
     steps.append({"do": "spurious", "n": 1, "c": 0})
     s["steps"] = steps
